@@ -30,7 +30,9 @@ RULE = (
     "delete, issubset/issuperset/isdisjoint/==, match, ImmutableRdataset wrapping), operands aliased (a op a) in about "
     "one case in five; Set histories over integers 0..7; Rdataset/RRset histories over pools of real records per type "
     "(A, MX with case-variant and relative exchanges, TXT, CNAME and SOA singletons, RRSIG covering two types, CH TXT), "
-    "TTLs from {0,1,5,60,300,3600,2^31-1}; record pairs/triples from the same pools plus case-swapped texts of every "
+    "TTLs from {0,1,5,60,300,3600,2^31-1}; every record also through other object routes (its GenericRdata twin via "
+    "to_generic and via GenericRdata(class, type, wire), a re-parsed typed instance, a subclass instance), in the pools of "
+    "the set histories and in the pair/triple universe; record pairs/triples from the same pools plus case-swapped texts of every "
     "type of tests/example; a case is non-trivial if its key (kind + script) is new"
 )
 TRUSTED_BASE = [
@@ -80,6 +82,9 @@ def pools():
                   rd_text("IN", "RRSIG", sig.format("NS")), rd_text("IN", "RRSIG", sig.format("NS").replace("example.", "EXAMPLE.")),
                   rd_text("IN", "RRSIG", sig.format("MX"))]
     P["CHTXT"] = [rd_text("CH", "TXT", x) for x in ('"a"', '"b"')]
+    for lab in ("A", "MX", "TXT", "CNAME", "SOA", "RRSIG"):
+        # the same records through other object routes (GenericRdata twins, re-parsed and subclass instances)
+        P[lab] = P[lab] + other_routes(P[lab][0]) + other_routes(P[lab][1])[:1] + other_routes(P[lab][2])[-1:]
     _POOLS = P
     return P
 
@@ -87,6 +92,43 @@ def pools():
 POOL_META = {  # label -> (rdclass, rdtype)
     "A": (1, 1), "MX": (1, 15), "TXT": (1, 16), "CNAME": (1, 5), "SOA": (1, 6), "RRSIG": (1, 46), "CHTXT": (3, 16),
 }
+
+
+_SUBCLS = {}
+
+
+def other_routes(rd):
+    """the same record reached through other object routes: its GenericRdata twin (to_generic and direct construction
+    from the wire form), a freshly parsed typed instance, an instance of a subclass of its class"""
+    import inspect
+
+    out = []
+    try:
+        wire = rd.to_wire()
+    except Exception:  # a relative name without origin
+        wire = None
+    if wire is not None:
+        makers = [lambda: dns.rdata.from_wire(rd.rdclass, rd.rdtype, wire, 0, len(wire))]
+        if int(rd.rdtype) not in (24, 46):
+            # (GenericRdata.covers() is NONE whatever the wire says, so generic twins of SIG/RRSIG are outside the model)
+            makers = [lambda: rd.to_generic(), lambda: dns.rdata.GenericRdata(rd.rdclass, rd.rdtype, wire)] + makers
+        for mk in makers:
+            try:
+                out.append(mk())
+            except Exception:
+                pass
+    cls = type(rd)
+    try:
+        params = [p_ for p_ in inspect.signature(cls.__init__).parameters if p_ != "self"]
+        if all(hasattr(rd, p_) for p_ in params):
+            if cls not in _SUBCLS:
+                sub = type(cls.__name__ + "Sub", (cls,), {"__slots__": (), "__module__": __name__})
+                globals()[sub.__name__] = sub  # picklable
+                _SUBCLS[cls] = sub
+            out.append(_SUBCLS[cls](*[getattr(rd, p_) for p_ in params]))
+    except Exception:
+        pass
+    return out
 
 
 def rd_rel(rd) -> bool:
@@ -769,6 +811,7 @@ def run_rds_script(ctx, case, rep):
 # record value semantics
 # ------------------------------------------------------------------------------------------------
 _ALLRD = None
+_GROUPS = []  # (start, length) of the groups of all_records(): a record, its case-swapped twin, other routes
 
 
 def all_records():
@@ -786,13 +829,17 @@ def all_records():
         for name, node in sorted(z.nodes.items()):
             for rds in node.rdatasets:
                 for rd in rds:
-                    out.append(rd)
+                    grp = [rd]
                     try:
                         t = rd.to_text()
                         tw = dns.rdata.from_text(rd.rdclass, rd.rdtype, t.swapcase(), origin=dns.name.root, relativize=False)
-                        out.append(tw)
+                        grp.append(tw)
+                        grp += other_routes(tw)[:1]
                     except Exception:
                         pass
+                    grp += other_routes(rd)
+                    _GROUPS.append((len(out), len(grp)))
+                    out += grp
     except Exception:
         pass
     for v in pools().values():
@@ -832,6 +879,19 @@ def eval_rdpair(ctx, i, j, rep, corr=True):
         ctx.fail("C07/Rdata/eq/canonical-encoding", f"== is {eq} but (class, type, relativity, canonical encoding) equal is {ka == kb}: {what}", rep)
     if (a != b) == eq:
         ctx.fail("C07/Rdata/ne/spec", f"!= is not the negation of ==: {what}", rep)
+    if bool(b == a) != bool(eq):
+        ctx.fail("C07/Rdata/eq/symmetry", f"a == b is {eq} but b == a is {b == a} ({type(a).__name__} vs {type(b).__name__}): {what}", rep)
+    if same and (sgn(a._cmp(b)) == 0) != bool(eq):
+        ctx.fail("C07/Rdata/eq/cmp-zero", f"== is {eq} but _cmp is {a._cmp(b)} ({type(a).__name__} vs {type(b).__name__}): {what}", rep)
+    one = ka == kb
+    try:
+        n_set, n_dict = len({a, b}), len(dict.fromkeys([a, b]))
+    except Exception as e:
+        n_set = n_dict = repr(e)
+    S = dns.set.Set([a, b])
+    if n_set != (1 if one else 2) or n_dict != n_set or len(S) != n_set or (b in [a]) != one or (b in dns.set.Set([a])) != one:
+        ctx.fail("C07/Rdata/eq/containers", f"set/dict/Set/list membership of the pair disagrees with equality of the canonical form ({one}); "
+                 f"{type(a).__name__} vs {type(b).__name__}: {what}", rep)
     if eq and hash(a) != hash(b):
         ctx.fail("C07/Rdata/hash/equal-records-differ", f"equal records hash differently: {what}", rep)
     if same:
@@ -1059,6 +1119,37 @@ def eval_valapi(ctx, i, rep):
                         ctx.fail("C07/Rdata/replace/mutates-original", f"replace({p_}={nv}) changed the original: {name}", rep)
                     break
                 break
+    for tw in other_routes(rd):
+        rn = f"{cls.__name__} vs {type(tw).__name__}"
+        if rd_key(tw) != key_before:
+            # e.g. the generic twin of a record whose canonical form lower-cases an embedded name: a different value
+            ctx.count("valapi.route.other-value")
+            continue
+        ok = (rd == tw) and (tw == rd) and not (rd != tw) and not (tw != rd) and hash(rd) == hash(tw) and rd._cmp(tw) == 0 \
+            and tw._cmp(rd) == 0 and rd <= tw and rd >= tw and not (rd < tw) and not (rd > tw)
+        if not ok:
+            ctx.fail(f"C07/Rdata/eq/object-route/{type(tw).__name__ if type(tw).__name__ == 'GenericRdata' else 'typed'}",
+                     f"the same record through another object route ({rn}) is not the same value: ==:{rd == tw}/{tw == rd} "
+                     f"!=:{rd != tw} hash-equal:{hash(rd) == hash(tw)} cmp:{rd._cmp(tw)} -- {name}", rep)
+        A1, B1 = dns.rdataset.Rdataset(rd.rdclass, rd.rdtype, rd.covers()), dns.rdataset.Rdataset(rd.rdclass, rd.rdtype, rd.covers())
+        A1.add(rd)
+        B1.add(tw)
+        both = A1.copy()
+        both.add(tw)
+        facts = {"add-dedup": len(both) == 1, "eq": A1 == B1 and not (A1 != B1), "subset": A1.issubset(B1) and B1.issuperset(A1),
+                 "disjoint": not A1.isdisjoint(B1), "union": len(A1 | B1) == 1, "intersection": len(A1 & B1) == 1,
+                 "difference": len(A1 - B1) == 0, "symmetric_difference": len(A1 ^ B1) == 0,
+                 "Set": len(dns.set.Set([rd, tw])) == 1 and len({rd, tw}) == 1, "remove": True}
+        try:
+            both.remove(tw)
+            facts["remove"] = len(both) == 0
+        except ValueError:
+            facts["remove"] = False
+        wrong = sorted(k_ for k_, v_ in facts.items() if not v_)
+        if wrong:
+            ctx.fail("C07/Rdataset/object-route/set-theory", f"record sets holding the same record through two object routes ({rn}): "
+                     f"{', '.join(wrong)} wrong -- {name}", rep)
+        ctx.count("valapi.route." + ("generic" if type(tw).__name__ == "GenericRdata" else "sub" if type(tw).__name__.endswith("Sub") else "typed"))
     bad = []
     for what, fn in (("copy.copy", copy.copy), ("copy.deepcopy", copy.deepcopy), ("pickle", lambda x: pickle.loads(pickle.dumps(x)))):
         try:
@@ -1152,7 +1243,7 @@ def eval_rdsapi(ctx, c, rep):
         "update_ttl-str": lambda: _add_all(_ttl(dns.rdataset.Rdataset(cls_, typ_), str(ttl)), rds_, None),
     }
     for rn, fn in routes.items():
-        if rn == "rdataset.from_text_list" and any(rd_rel(r) for r in rds_):
+        if rn == "rdataset.from_text_list" and any(rd_rel(r) or type(r).__name__ == "GenericRdata" for r in rds_):
             continue
         try:
             got = fn()
@@ -1257,9 +1348,13 @@ def generate(ctx: Ctx, scale, rng):
         eval_case(ctx, c)
     for _ in range(n(6000)):
         i = rng.below(len(R))
-        m = rng.below(4)
-        # twins sit next to each other; same-type neighbours are close
-        j = i if m == 0 else (i ^ 1) if m == 1 else (i + rng.range(-6, 6)) % len(R) if m == 2 else rng.below(len(R))
+        m = rng.choice([0, 1, 1, 2, 3])
+        # members of one group are routes / spellings of one record; same-type neighbours are close
+        if m == 1 and _GROUPS:
+            st_, ln_ = rng.choice(_GROUPS)
+            i, j = st_ + rng.below(ln_), st_ + rng.below(ln_)
+        else:
+            j = i if m == 0 else (i + rng.range(-6, 6)) % len(R) if m == 2 else rng.below(len(R))
         c = {"kind": "rdpair", "i": i, "j": j}
         ctx.case(("rdpair", i, j), nontrivial=(i != j), sample=c)
         eval_case(ctx, c)
